@@ -16,7 +16,7 @@ import time
 
 VERIF = os.path.dirname(os.path.dirname(os.path.abspath(__file__)))
 DRIVER = os.path.join(VERIF, "engine", "target", "release", "txtpp-facts")
-CACHE = os.path.join(VERIF, ".cache")
+CACHE = os.environ.get("TXTPP_VERIF_CACHE") or os.path.join(VERIF, ".cache")
 
 # cargo invocations per configuration (cfg universe, DESIGN §4.1)
 CONFIGS = {
@@ -118,6 +118,7 @@ def extract(root, config="default", use_cache=True, manifest_path=None):
 
 
 def _prune_cache(keep, max_entries=6):
+    max_entries = int(os.environ.get("TXTPP_VERIF_CACHE_MAX", max_entries))
     try:
         ents = [(os.path.getmtime(os.path.join(CACHE, e)), e) for e in os.listdir(CACHE)]
     except OSError:
